@@ -646,6 +646,7 @@ def r136(ctx, R):
                  "the others the required side", sorted(assigned), func=f,
                  node=node, nontrivial=False)
     R.count('R13.6', n, 4)
+    _r136_paths(ctx, R)
     # the order of the startswith tests: the longer '!in:' before '!'
     f = prog.func('placement.util:normalize_member_of_qs_param')
     chain = []
@@ -688,6 +689,87 @@ def r136(ctx, R):
         ok, why = _accumulates(ctx, g, single)
         R.ob('R13.6', '%s:accumulation' % q.split(':')[1], ok, what, why,
              func=g)
+
+
+def _r136_paths(ctx, R):
+    """The same two facts decided per path with the values propagated: on
+    every returning path of a single-value parser, what was cut off the
+    value is as long as the longest prefix the path found it to start with,
+    and the value ends up on the forbidden side exactly when that prefix
+    begins with '!'.  (Covers parsers that look the prefix up in a table and
+    slice by its length; parsers that fill their results with add() calls
+    are covered by the per-branch rule above.)"""
+    from psa import pathval
+    prog = ctx.prog
+    for q in PARSERS:
+        f = prog.func(q)
+        if len(f.params) != 1:
+            continue
+        recv = f.params[0]
+        bad_strip, bad_pol = [], []
+        seen = 0
+        for p in pathval.paths_of(f):
+            if p.end != 'return':
+                continue
+            ret = p.stmts[-1]
+            val = p.value_at(ret, ret.value) if ret.value is not None \
+                else None
+            if not (isinstance(val, ast.Tuple) and len(val.elts) == 2):
+                continue
+            lits = set()
+            for _n, pol, t in p.conds:
+                d = pathval.dnf(t, pol)
+                if len(d) != 1:
+                    continue
+                for a, ap in d[0]:
+                    if ap and isinstance(a, ast.Call) and isinstance(
+                            a.func, ast.Attribute) and a.func.attr == \
+                            'startswith' and src(a.func.value) == recv and \
+                            a.args and isinstance(a.args[0], ast.Constant) \
+                            and isinstance(a.args[0].value, str):
+                        lits.add(a.args[0].value)
+            lit = max(lits, key=len) if lits else ''
+            cuts = []
+            for x in ast.walk(val):
+                if isinstance(x, ast.Subscript) and src(x.value) == recv \
+                        and isinstance(x.slice, ast.Slice):
+                    lo = x.slice.lower
+                    n_ = None
+                    if lo is None:
+                        n_ = 0
+                    elif isinstance(lo, ast.Constant) and isinstance(
+                            lo.value, int):
+                        n_ = lo.value
+                    elif isinstance(lo, ast.Call) and src(lo.func) == 'len' \
+                            and len(lo.args) == 1 and isinstance(
+                                lo.args[0], ast.Constant) and isinstance(
+                                    lo.args[0].value, str):
+                        n_ = len(lo.args[0].value)
+                    cuts.append((n_, x.slice.upper is None, src(x)))
+            mentions = [recv in C.names_in(e) for e in val.elts]
+            if not any(mentions):
+                continue
+            seen += 1
+            for n_, open_end, text in cuts:
+                if n_ != len(lit) or not open_end:
+                    bad_strip.append('%s after %r' % (text, lit))
+            if lit and not cuts:
+                bad_strip.append('nothing cut after %r' % lit)
+            want = [False, True] if lit.startswith('!') else [True, False]
+            if mentions != want:
+                bad_pol.append('%r -> (%s)' % (lit, ', '.join(
+                    src(e)[:30] for e in val.elts)))
+        if not seen:
+            continue
+        name = f.qbase.split(':')[1]
+        R.ob('R13.6', '%s:paths-strip' % name, not bad_strip,
+             'on every returning path the part cut off the value is exactly '
+             'the (longest) prefix the path tested', bad_strip[:3] or
+             '%d paths' % seen, func=f)
+        R.ob('R13.6', '%s:paths-polarity' % name, not bad_pol,
+             "on every returning path a value with a '!' prefix ends up on "
+             "the forbidden side only, any other on the required side only",
+             bad_pol[:3] or '%d paths' % seen, func=f)
 
 
 def _returned_sides(f):
